@@ -4,7 +4,7 @@
     lines the Rust harness executed are replayed here and the dumps are compared.
     Model only, no proofs. *)
 From Coq Require Import List NArith ZArith Bool Floats.
-From HC Require Import Stm.Prog Map2.Ops2 Map2.State2 Map2.Wf2 Extract.Tok.
+From HC Require Import Stm.Prog Map2.Ops2 Map2.State2 Map2.Wf2 Map2.Orbit2 Map2.Kern2 Map2.KOps2 Extract.Tok.
 Import ListNotations.
 Open Scope N_scope.
 
@@ -21,6 +21,23 @@ Definition bad_orient2 (l b1r b1l r : V2) : bool :=
 
 Definition w32 (z : Z) : Z := Z.modulo z 4294967296.
 
+(* kernels' geometry on f64 *)
+Definition lerp2 (a b : V2) (t : float) : V2 :=
+  ((fst a + (fst b - fst a) * t)%float, (snd a + (snd b - snd a) * t)%float).
+Definition cross2 (v1 v2 v3 : V2) : float :=
+  ((fst v2 - fst v1) * (snd v3 - snd v2) - (snd v2 - snd v1) * (fst v3 - fst v2))%float.
+Definition fsignum (x : float) : float :=
+  if PrimFloat.is_nan x then x
+  else if (x <? 0)%float || ((x =? 0)%float && (1 / x <? 0)%float) then (-1)%float else 1%float.
+Definition feps : float := 0x1p-52%float.
+Definition in_unit (t : float) : bool := negb ((1 <=? t)%float || (t <=? 0)%float).
+Definition v2_eqb (a b : V2) : bool := (fst a =? fst b)%float && (snd a =? snd b)%float.
+(* anchors: dimension * 2^32 + identifier *)
+Definition anc_dim (a : Z) : N := Z.to_N (Z.div a 4294967296).
+Definition anc_merge (a b : Z) : option Z :=
+  if (anc_dim a =? anc_dim b)%N then (if Z.eqb a b then Some a else None)
+  else if (anc_dim a <? anc_dim b)%N then Some a else Some b.
+
 (** kind 0: Wt, vertex, additive weight (non idempotent)
     kind 1: Ea, edge, non-commutative
     kind 2: Fa, face, max
@@ -30,29 +47,32 @@ Definition am (k : N) (a b : Z) : option Z :=
   | 0 => Some (w32 (a + b)%Z)
   | 1 => Some (w32 (3 * a + b + 1)%Z)
   | 2 => Some (Z.max a b)
-  | _ => if Z.eqb (Z.modulo (a + b) 5) 0 then None else Some (w32 (2 * a + b)%Z)
+  | 3 => if Z.eqb (Z.modulo (a + b) 5) 0 then None else Some (w32 (2 * a + b)%Z)
+  | _ => anc_merge a b
   end.
 Definition ami (k : N) (a : Z) : option Z :=
   match k with
   | 0 => Some a
   | 1 => Some (w32 (a + 100)%Z)
   | 2 => None
-  | _ => Some (w32 (a + 1)%Z)
+  | 3 => Some (w32 (a + 1)%Z)
+  | _ => Some a
   end.
 Definition amn (k : N) : option Z :=
   match k with
-  | 0 => None | 1 => Some 7%Z | 2 => None | _ => Some 0%Z
+  | 0 => None | 1 => Some 7%Z | 2 => None | 3 => Some 0%Z | _ => None
   end.
 Definition asp (k : N) (a : Z) : option (Z * Z) :=
   match k with
   | 0 => Some (Z.div a 2, a - Z.div a 2)%Z
   | 1 => Some (w32 (a + 1)%Z, w32 (2 * a + 3)%Z)
   | 2 => Some (a, a)
-  | _ => if Z.eqb (Z.modulo a 7) 0 then None else Some (w32 (a + 2)%Z, Z.div a 3)
+  | 3 => if Z.eqb (Z.modulo a 7) 0 then None else Some (w32 (a + 2)%Z, Z.div a 3)
+  | _ => Some (a, a)
   end.
 Definition aspn (k : N) : option (Z * Z) :=
   match k with
-  | 0 => None | 1 => Some (8, 9)%Z | 2 => None | _ => Some (1, 2)%Z
+  | 0 => None | 1 => Some (8, 9)%Z | 2 => None | 3 => Some (1, 2)%Z | _ => None
   end.
 
 Global Instance sig_f64 : Sig := {|
@@ -64,13 +84,18 @@ Global Instance sig_f64 : Sig := {|
   v_split_none := None;
   a_merge := am; a_merge_inc := ami; a_merge_none := amn;
   a_split := asp; a_split_none := aspn;
-  bad_orient := bad_orient2 |}.
+  bad_orient := bad_orient2;
+  Sc := float; sc_in_unit := in_unit; v_lerp := lerp2; v_avg := avg2; v_cross := cross2; v_eqb := v2_eqb;
+  sc_signum := fsignum; sc_eqb := PrimFloat.eqb;
+  sc_small := fun x => (PrimFloat.abs x <? feps)%float;
+  sc_pos := fun x => (0 <? x)%float; sc_neg := fun x => (x <? 0)%float;
+  anchor_dim := anc_dim; a_eqb := Z.eqb |}.
 
 Definition kind_cell (k : N) : cellkind :=
-  match k with 0 => KVertex | 1 => KEdge | 2 => KFace | _ => KVertex end.
+  match k with 0 => KVertex | 1 => KEdge | 2 => KFace | 3 => KVertex | 4 => KVertex | 5 => KEdge | _ => KFace end.
 
 Definition kinds_of_mask (m : N) : kinds :=
-  map (fun k => (k, kind_cell k)) (filter (fun k => N.testbit m k) [0; 1; 2; 3]).
+  map (fun k => (k, kind_cell k)) (filter (fun k => N.testbit m k) [0; 1; 2; 3; 4; 5; 6]).
 
 (** ** compaction: rebuild a store as lookup tables (extensionally the same store on
     every addressable variable; keeps closures from piling up over long histories) *)
@@ -166,6 +191,78 @@ Fixpoint parse_calls (m : nat) (ts : list tok) : option (list call2 * list tok) 
     end
   end.
 
+(** kernel calls *)
+Fixpoint take_Ns (k : nat) (ts : list tok) : option (list N * list tok) :=
+  match k with
+  | O => Some ([], ts)
+  | S k' =>
+    match ts with
+    | TZ z :: rest =>
+      match take_Ns k' rest with Some (l, r) => Some (zN z :: l, r) | None => None end
+    | _ => None
+    end
+  end.
+Fixpoint take_Fs (k : nat) (ts : list tok) : option (list float * list tok) :=
+  match k with
+  | O => Some ([], ts)
+  | S k' =>
+    match ts with
+    | TF f :: rest =>
+      match take_Fs k' rest with Some (l, r) => Some (f :: l, r) | None => None end
+    | _ => None
+    end
+  end.
+Definition take_counted_Ns (ts : list tok) : option (list N * list tok) :=
+  match ts with TZ m :: rest => take_Ns (Z.to_nat m) rest | _ => None end.
+
+Definition parse_kcall (ts : list tok) : option (kcall * list tok) :=
+  match ts with
+  | TZ 1 :: TZ e :: TZ a :: TZ b :: TZ 0 :: rest => Some (KInsertVertex (zN e) (zN a) (zN b) None, rest)
+  | TZ 1 :: TZ e :: TZ a :: TZ b :: TZ 1 :: TF t :: rest => Some (KInsertVertex (zN e) (zN a) (zN b) (Some t), rest)
+  | TZ 2 :: TZ e :: rest =>
+    match take_counted_Ns rest with
+    | Some (nds, TZ nt :: rest') =>
+      match take_Fs (Z.to_nat nt) rest' with
+      | Some (tsf, rest'') => Some (KInsertVertices (zN e) nds tsf, rest'')
+      | None => None
+      end
+    | _ => None
+    end
+  | TZ 3 :: TZ f :: rest =>
+    match take_counted_Ns rest with Some (nds, r) => Some (KFan (zN f) nds, r) | None => None end
+  | TZ 4 :: TZ f :: rest =>
+    match take_counted_Ns rest with Some (nds, r) => Some (KFanConvex (zN f) nds, r) | None => None end
+  | TZ 5 :: TZ ccw :: TZ f :: rest =>
+    match take_counted_Ns rest with Some (nds, r) => Some (KEarclip (negb (ccw =? 0)%Z) (zN f) nds, r) | None => None end
+  | TZ 6 :: TZ e :: rest => Some (KSwap (zN e), rest)
+  | TZ 7 :: TZ e :: TZ a :: TZ b :: TZ c :: rest => Some (KCutOuter (zN e) (zN a) (zN b) (zN c), rest)
+  | TZ 8 :: TZ e :: TZ a :: TZ b :: TZ c :: TZ d :: TZ f :: TZ g :: rest =>
+      Some (KCutInner (zN e) (zN a) (zN b) (zN c) (zN d) (zN f) (zN g), rest)
+  | TZ 9 :: TZ e :: rest => Some (KCollapse (zN e), rest)
+  | _ => None
+  end%Z.
+
+Definition parse_bitem (ts : list tok) : option (bitem * list tok) :=
+  match ts with
+  | TZ 0 :: rest => match parse_call rest with Some (c, r) => Some (BC c, r) | None => None end
+  | TZ 1 :: rest => match parse_kcall rest with Some (k, r) => Some (BK k, r) | None => None end
+  | _ => None
+  end%Z.
+
+Fixpoint parse_bitems (m : nat) (ts : list tok) : option (list bitem * list tok) :=
+  match m with
+  | O => Some ([], ts)
+  | S m' =>
+    match parse_bitem ts with
+    | Some (b, rest) =>
+      match parse_bitems m' rest with
+      | Some (bs, rest') => Some (b :: bs, rest')
+      | None => None
+      end
+    | None => None
+    end
+  end.
+
 Definition fail_of (z : Z) : option N := if (z <? 0)%Z then None else Some (zN z).
 
 (** an op together with its fault-injection index *)
@@ -188,6 +285,25 @@ Definition parse_op (ts : list tok) : option (option N * op2 * list tok) :=
   | _ => None
   end%Z.
 
+Definition parse_opk (ts : list tok) : option (option N * opk * list tok) :=
+  match ts with
+  | TZ 9 :: TZ fa :: rest =>
+      match parse_kcall rest with
+      | Some (k, rest') => Some (fail_of fa, Kern k, rest')
+      | None => None
+      end
+  | TZ 10 :: TZ fa :: TZ m :: rest =>
+      match parse_bitems (Z.to_nat m) rest with
+      | Some (bs, rest') => Some (fail_of fa, KBlock bs, rest')
+      | None => None
+      end
+  | _ =>
+      match parse_op ts with
+      | Some (fa, o, rest) => Some (fa, Base o, rest)
+      | None => None
+      end
+  end%Z.
+
 (** run the ops of a case, emitting one observation line per observed op;
     [7 b] switches observation on/off (switching on emits the current state);
     [fuel] bounds the number of ops (the token count is enough) *)
@@ -204,10 +320,10 @@ Fixpoint run_ops (query : state2 -> list tok) (fuel : nat) (obs : bool) (st : st
       if obs then (dump_result (ROk 0) ++ query st) :: run_ops query f obs st rest
       else run_ops query f obs st rest
     | _ =>
-      match parse_op ts with
+      match parse_opk ts with
       | None => [[TZ (-1)]]                       (* malformed case: visible in the diff *)
       | Some (fa, o, rest) =>
-        let '(r, st') := step2 fa st o in
+        let '(r, st') := stepk fa st o in
         let st'' := compact2 st' in
         if obs then (dump_result r ++ dump2 st'') :: run_ops query f obs st'' rest
         else run_ops query f obs st'' rest
